@@ -38,6 +38,9 @@ CHECKS = {
  "C13": dict(level="exploration", technique="property-based testing (proptest): generated notes with multi-byte text and CRLF, position probes derived from an independent offset-tracking scan and own UTF-16 line table",
    text="For every link of a generated note the harness computes the LSP span from byte offsets with its own line table and probes inside / outside positions: definition and prepare-rename must act exactly inside, go to the resolved note, return the destination range; symbol lines must be heading lines.",
    note="Boundary positions of a span are not judged; single-line links only.", ref="7/C13"),
+ "C14": dict(level="exploration", technique="property-based testing (proptest): generated file names and library paths materialised on a real directory, server started from disk, uris built as editors build them; identity oracles across file / uri / key / link",
+   text="Generated relative paths (spaces, non-ASCII, %, +, #, ?, dots, nested) under odd library directories are written to disk and loaded; editing each file through its uri must change that very note, response uris must convert back to files on disk, links by relative path must reach the file.",
+   note="Real directories under /verif/work/fs (removed per case).", ref="7/C14"),
  "C15": dict(level="exploration", technique="property-based testing (proptest): generated (key, directory, url) triples, round-trip laws against the harness's own path algebra, plus export and completion checks on generated layouts",
    text="Write/read and read/write laws of the relative-link functions for keys and directories of depth 0-5 with shared-prefix names, and end-to-end: block references in four container positions of a note in D are exported and must still resolve to K; completion items must resolve to existing notes.",
    note="Trusted: the harness's path algebra (resolve/relative, unit-tested).", ref="7/C15"),
